@@ -198,7 +198,7 @@ def tlc(specdir, module, cfg, workers=None, timeout=900, simulate=None, depth=No
         res.error = "invariant:" + re.search(r"Invariant (\S+) is violated", o).group(1)
     elif "Deadlock reached" in o:
         res.error = "deadlock"
-    elif "Temporal properties were violated" in o:
+    elif "Temporal properties were violated" in o or re.search(r"Temporal property \S+ was violated", o):
         res.error = "temporal"
     elif re.search(r"Action property \S+ .*is violated", o):
         res.error = "actionprop:" + re.search(r"Action property (\S+)", o).group(1)
